@@ -690,6 +690,59 @@ fn programs_blocking(thorough: bool) -> Vec<Program> {
 }
 
 // ---------------------------------------------------------------------------------------------
+
+// A task "has finished" only when its routine has been destroyed too: a routine may own state whose
+// destructor still touches what the scope's caller lends to it. Sampled on a real multi-thread runtime:
+// a hand-written future that completes at its first poll and owns a guard whose destructor takes 150 ms.
+fn destructor_runs() -> (u64, Option<String>) {
+    struct SlowDrop(Arc<std::sync::atomic::AtomicBool>);
+    impl Drop for SlowDrop {
+        fn drop(&mut self) {
+            std::thread::sleep(std::time::Duration::from_millis(150));
+            self.0.store(true, std::sync::atomic::Ordering::SeqCst);
+        }
+    }
+    struct Routine(Option<SlowDrop>, Result<(), u32>);
+    impl std::future::Future for Routine {
+        type Output = Result<(), u32>;
+        fn poll(self: std::pin::Pin<&mut Self>, _cx: &mut std::task::Context<'_>) -> std::task::Poll<Self::Output> {
+            // completes at once; the guard stays inside the (completed) routine until the routine is dropped
+            std::task::Poll::Ready(self.1)
+        }
+    }
+    let mut runs = 0;
+    for bg in [false, true] {
+        for fails in [false, true] {
+            runs += 1;
+            let done = Arc::new(std::sync::atomic::AtomicBool::new(false));
+            let d2 = done.clone();
+            let rt = tokio::runtime::Builder::new_multi_thread().worker_threads(2).enable_time().build().unwrap();
+            let clock = ctx::ManualClock::new();
+            let root = ctx::test_root(&clock);
+            let res: Result<(), u32> = rt.block_on(async {
+                scope::run!(&root, |_ctx, s| async move {
+                    let r = Routine(Some(SlowDrop(d2)), if fails { Err(5) } else { Ok(()) });
+                    if bg {
+                        s.spawn_bg(r);
+                    } else {
+                        s.spawn(r);
+                    }
+                    // let the task start on the other worker before the root returns
+                    tokio::time::sleep(std::time::Duration::from_millis(20)).await;
+                    Ok(())
+                })
+                .await
+            });
+            let destroyed = done.load(std::sync::atomic::Ordering::SeqCst);
+            drop(rt);
+            if !destroyed {
+                return (runs, Some(format!("scope::run! returned {res:?} while the routine of a {} task (result {}) was still being destroyed: its destructor had not finished", if bg { "background" } else { "main" }, if fails { "Err(5)" } else { "Ok" })));
+            }
+        }
+    }
+    (runs, None)
+}
+
 // Blocking tasks: uncontrolled real threads, oracle only (sampled, not exhaustive).
 
 fn blocking_runs(iterations: usize) -> (u64, Option<String>) {
@@ -937,7 +990,10 @@ pub fn run(args: &Args) -> Report {
             }
             return rep;
         }
-        if rp["harness"] == "c17-blocking" {
+        if rp["harness"] == "c17-blocking" || rp["harness"] == "c17-destructor" {
+            if let (_, Some(b)) = destructor_runs() {
+                rep.violations.push(Violation { key: "routine_destroyed_after_return".into(), what: b, replay: json!({"harness":"c17-destructor"}) });
+            }
             if let (_, Some(b)) = blocking_runs(400) {
                 rep.violations.push(Violation { key: "blocking".into(), what: b, replay: rp.clone() });
             }
@@ -1020,6 +1076,10 @@ pub fn run(args: &Args) -> Report {
     if let Some(b) = bviol {
         rep.violations.push(Violation { key: "blocking".into(), what: b, replay: json!({"harness":"c17-blocking"}) });
     }
+    let (druns, dviol) = destructor_runs();
+    if let Some(d) = dviol {
+        rep.violations.push(Violation { key: "routine_destroyed_after_return".into(), what: d, replay: json!({"harness":"c17-destructor"}) });
+    }
     if *wit.get("panicked").unwrap_or(&0) == 0 || *wit.get("returned_err").unwrap_or(&0) == 0 {
         if rep.violations.is_empty() {
             rep.machinery_errors.push("vacuous: no execution panicked / returned an error".into());
@@ -1045,6 +1105,7 @@ pub fn run(args: &Args) -> Report {
         "capped_by_time_budget": capped,
         "witnesses": wit.iter().map(|(k,v)| (k.to_string(), json!(v))).collect::<serde_json::Map<_,_>>(),
         "blocking_task_runs_uncontrolled_not_exhaustive": bruns,
+        "routine_destructor_runs_uncontrolled_not_exhaustive": druns,
         "thread_level_interleavings_of_set_err": truns, "thread_level_all_interleavings_explored": tall,
     });
     rep.assumptions = vec![
